@@ -59,25 +59,27 @@ type Ledger struct {
 	States    int
 	start     time.Time
 	index     map[string]*Obligation
-	rename    map[string]string // rule-name prefixes rewritten while a rule shared with another property runs
-	only      bool              // with rename: obligations of rules matching no prefix are not recorded
+	frames    []renameFrame // rule-name rewritings in force while rules shared with another property run (innermost last)
+}
+
+type renameFrame struct {
+	m    map[string]string
+	only bool
+}
+
+// As runs f with rule names rewritten: a rule owned by one property is a necessary condition of another one too, and
+// is then reported under that property's own rule name.  Calls nest: the innermost rewriting is applied first.
+func (l *Ledger) As(rename map[string]string, f func()) {
+	l.frames = append(l.frames, renameFrame{rename, false})
+	defer func() { l.frames = l.frames[:len(l.frames)-1] }()
+	f()
 }
 
 // AsOnly is As restricted to the listed rules: whatever else f reports is dropped (f is another property's whole check,
 // of which only some rules are necessary conditions of this property).
 func (l *Ledger) AsOnly(rename map[string]string, f func()) {
-	oldOnly := l.only
-	l.only = true
-	defer func() { l.only = oldOnly }()
-	l.As(rename, f)
-}
-
-// As runs f with rule names rewritten: a rule owned by one property is a necessary condition of another one too, and
-// is then reported under that property's own rule name.
-func (l *Ledger) As(rename map[string]string, f func()) {
-	old := l.rename
-	l.rename = rename
-	defer func() { l.rename = old }()
+	l.frames = append(l.frames, renameFrame{rename, true})
+	defer func() { l.frames = l.frames[:len(l.frames)-1] }()
 	f()
 }
 
@@ -87,16 +89,19 @@ func NewLedger(prop, tier string, seed int, verifDir string) *Ledger {
 }
 
 func (l *Ledger) add(o *Obligation) *Obligation {
-	matched := false
-	for from, to := range l.rename {
-		if strings.HasPrefix(o.Rule, from) {
-			o.Rule = to + strings.TrimPrefix(o.Rule, from)
-			matched = true
-			break
+	for i := len(l.frames) - 1; i >= 0; i-- {
+		fr := l.frames[i]
+		matched := false
+		for from, to := range fr.m {
+			if strings.HasPrefix(o.Rule, from) {
+				o.Rule = to + strings.TrimPrefix(o.Rule, from)
+				matched = true
+				break
+			}
 		}
-	}
-	if l.only && !matched && !strings.HasPrefix(o.Rule, "infrastructure") {
-		return o
+		if fr.only && !matched && !strings.HasPrefix(o.Rule, "infrastructure") {
+			return o
+		}
 	}
 	k := o.Rule + "\x00" + o.Construct
 	if old, ok := l.index[k]; ok {
